@@ -64,7 +64,7 @@ PROPS["C13"] = {
          "bounds": {"initial replicas": "{1,2,3}", "scale target": "{-1,0,1,2,3,9,10,11}", "requests": 1, "templates": "command and description reference PC_REPLICA_NUM and a global variable"}},
         {"pkg": "app", "name": "VerifC13_Scale2", "thorough": {"d": 0, "wall": 3000}, "native": False,
          "bounds": {"requests": 2}},
-        {"pkg": "app", "name": "VerifC13_Scale100", "quick": {"d": 0}, "thorough": {"d": 1}, "native": False,
+        {"pkg": "app", "name": "VerifC13_Scale100", "quick": {"d": 0}, "thorough": {"d": 0}, "native": False,
          "bounds": {"initial replicas": "{1,2,3}", "scale targets": "two successive requests from {99,100,101} (name width 2 -> 3 and back)"}},
     ],
     "stubs": ["math.Log10 evaluated natively on the concrete replica count"],
@@ -216,7 +216,7 @@ PROPS["C01"] = {
         {"pkg": "app", "name": "VerifC01_Api", "quick": {"d": 0}, "thorough": {"d": 1}, "native": False, "reach": ["end", "launched.after.ready"],
          "bounds": {"operation": "RestartProcess / StopProcess+StartProcess / ScaleProcess to 2 / UpdateProject adding a dependent", "dependency": "process_healthy that becomes ready later, or process_completed_successfully that failed"}},
         {"pkg": "app", "name": "VerifC01_Api2", "quick": {"d": 1}, "thorough": {"d": 2}, "native": False, "reach": ["end", "launched.after.ready"],
-         "bounds": {"scenario": "dependent with a never-scheduled (disabled) sibling dependency, both depends_on orders / dependency restarted through the API before the dependent is started / UpdateProject adding a dependency and its dependent at once, every map order",
+         "bounds": {"scenario": "dependent with a never-scheduled (disabled) sibling dependency, both depends_on orders / dependency restarted through the API before the dependent is started / UpdateProject adding a dependency and its dependent at once, every map order / a process_log_ready dependency stopped or restarted through the API before its ready line",
                     "schedules": "one preemption (two thorough)"}},
         {"pkg": "app", "name": "VerifC01_Gating", "quick": {"d": 0}, "thorough": {"d": 1}, "replay_repeat": 8,
          "bounds": {"N": 3, "edges": "every subset of {p1->p0,p2->p0,p2->p1} x {completed, completed_successfully, log_ready, started}", "dependency behaviour": "exit 0 / exit 3 / killed by a signal (-1) / runs until stopped",
@@ -277,6 +277,8 @@ PROPS["C11"] = {
     "harnesses": [
         {"pkg": "app", "name": "VerifC11_Lines", "quick": {}, "thorough": {},
          "bounds": {"stream": "<=3 complete lines + final fragment, each every byte string over {a,b,space} of length <=2 (empty lines, missing final newline included)"}},
+        {"pkg": "app", "name": "VerifC11_Window", "quick": {}, "thorough": {},
+         "bounds": {"log_length": "{0,1,3}", "lines written": "log_length + {99,100,101,102,200,201,202} (both sides of the first two trimming points)"}},
         {"pkg": "pclog", "name": "VerifC11_LoggerDrain", "quick": {"d": 1}, "thorough": {"d": 3}, "replay_repeat": 6,
          "bounds": {"lines": "1..3 handed to the file logger (Info/Error alternating), then Close", "logger config": "default / flush_each_line / no_metadata / add_timestamp",
                     "collector progress": "every interleaving of the collector with the producer at the per-line scheduling points within the delay bound"}},
@@ -285,7 +287,7 @@ PROPS["C11"] = {
               "zerolog: one Write of message+newline per Msg to the writer given to zerolog.New (natively the real zerolog)", "PCLog.getWriter: an in-memory sink (natively a real file)"],
     "assumptions": ["real pipes, kernel buffering, zerolog formatting and rotation are outside the claim (reduced scope)"],
 }
-_lv("C11", "handleOutput/handleInfo/ProcessLogBuffer.Write over a scripted stream of <=3 complete lines plus a final fragment with symbolic contents: the in-memory log holds exactly the delivered lines, once, in order, newline stripped, an unterminated last line included; end of stream signalled once. Log file: real PCLog Open/Info/Error/Close/runCollector + the standard library's bufio.Writer, 1-3 lines, four logger configurations, every collector interleaving within the delay bound: every line handed over before Close is in the file exactly once and in order after Close, and nothing is written after the file was closed.",
+_lv("C11", "handleOutput/handleInfo/ProcessLogBuffer.Write over a scripted stream of <=3 complete lines plus a final fragment with symbolic contents: the in-memory log holds exactly the delivered lines, once, in order, newline stripped, an unterminated last line included; end of stream signalled once. Window: log_length+{99..102,200..202} lines through the real handleOutput: the most recent log_length lines are in the log in order, the last line written is the newest entry. Log file: real PCLog Open/Info/Error/Close/runCollector + the standard library's bufio.Writer, 1-3 lines, four logger configurations, every collector interleaving within the delay bound: every line handed over before Close is in the file exactly once and in order after Close, and nothing is written after the file was closed.",
     "bufio.ReadString and zerolog modelled by their contracts under symgo (real ones natively); file opening replaced by a sink under symgo; very long lines and rotation are outside - reduced scope.")
 
 PROPS["C16"] = {
